@@ -714,5 +714,7 @@ pub fn gen_plan(seed: u64, run: u64) -> Plan {
         g.vector_phase();
     }
     let ops = g.ops;
-    Plan { kind, faulty, ops }
+    // element-shape swarm dimension (drawn last so that the plans of earlier versions keep their shape)
+    let elem = if !is_mat && rng.chance(1, 6) { 1 } else { 0 };
+    Plan { kind, faulty, elem, ops }
 }
